@@ -2,6 +2,7 @@
 """Fills meta.json 'what'/'needs' from the author's notes and prints the DESIGN.md §11 table."""
 import json, glob, re, os, sys
 rows=[]
+history=json.load(open('/verif/seeded/HISTORY.json')) if os.path.exists('/verif/seeded/HISTORY.json') else {}
 for d in sorted(glob.glob('/verif/seeded/*/')):
     mp=d+'meta.json'; m=json.load(open(mp))
     notes=open(d+'notes.md').read() if os.path.exists(d+'notes.md') else ''
@@ -20,6 +21,7 @@ for d in sorted(glob.glob('/verif/seeded/*/')):
     m['needs']=need[:420]
     title=notes.strip().splitlines()[0].lstrip('# ').strip() if notes.strip() else ''
     m['what']=title[:200]
+    if m['id'] in history: m['history']=history[m['id']]
     json.dump(m,open(mp,'w'),indent=1)
     own=m.get('checks',{}).get(m['property'],{})
     first=own.get('first','')
